@@ -130,6 +130,7 @@ type Ctx struct {
 	usedAxioms map[string]bool
 	external map[string]bool
 	qhyps []qhyp
+	skTuples [][]SVal
 	inlining map[*ssa.Function]int
 }
 
@@ -479,6 +480,28 @@ func flattenAnd(e *Expr) []*Expr {
 // noteHyp records the top-level universally quantified conjuncts of an assumed clause.
 func (c *Ctx) noteHyp(e *Expr, ev *EvalCtx, reach string) {
 	for _, cj := range flattenAnd(e) {
+		if cj.Op == "binary" && cj.Name == "==>" && cj.Args[0].Op == "forall" {
+			// (forall v :: P) ==> Q : name the witness of the antecedent's failure and remember it as an
+			// instantiation point for goals with a quantified antecedent over the same sorts
+			fa := cj.Args[0]
+			n := ev
+			var sks []SVal
+			for _, v := range fa.Vars {
+				s, gt := c.eng.resolveType(ev.pkg, v.Type)
+				c.skolems++
+				sk := c.declare(fmt.Sprintf("wit.%s!%d", v.Name, c.skolems), s)
+				sv := SVal{T: sk, S: s, GT: gt}
+				sks = append(sks, sv)
+				n = n.bind(v.Name, sv)
+			}
+			p, err1 := n.evalBool(fa.Args[0])
+			q, err2 := ev.evalBool(cj.Args[1])
+			if err1 == nil && err2 == nil {
+				c.assume(reach, "(=> "+p+" "+q+")")
+				c.skTuples = append(c.skTuples, sks)
+			}
+			continue
+		}
 		if cj.Op == "forall" {
 			cp := *ev
 			c.qhyps = append(c.qhyps, qhyp{vars: cj.Vars, body: cj.Args[0], ev: &cp, reach: reach})
@@ -491,6 +514,43 @@ func (c *Ctx) noteHyp(e *Expr, ev *EvalCtx, reach string) {
 func (c *Ctx) skolemGoal(e *Expr, ev *EvalCtx, reach string) (string, error) {
 	var parts []string
 	for _, cj := range flattenAnd(e) {
+		if cj.Op == "binary" && cj.Name == "==>" && cj.Args[0].Op == "forall" {
+			// goal (forall v :: A) ==> C: besides assuming the quantified antecedent, instantiate it at the
+			// recorded witness tuples of matching sorts
+			fa := cj.Args[0]
+			ante, err := ev.evalBool(fa)
+			if err != nil {
+				return "", err
+			}
+			conj := []string{ante}
+			for _, tup := range c.skTuples {
+				if len(tup) != len(fa.Vars) {
+					continue
+				}
+				n := ev
+				ok := true
+				for k, v := range fa.Vars {
+					s, _ := c.eng.resolveType(ev.pkg, v.Type)
+					if s != tup[k].S {
+						ok = false
+						break
+					}
+					n = n.bind(v.Name, tup[k])
+				}
+				if !ok {
+					continue
+				}
+				if inst, err := n.evalBool(fa.Args[0]); err == nil {
+					conj = append(conj, inst)
+				}
+			}
+			cons, err := ev.evalBool(cj.Args[1])
+			if err != nil {
+				return "", err
+			}
+			parts = append(parts, "(=> (and "+strings.Join(conj, " ")+") "+cons+")")
+			continue
+		}
 		if cj.Op != "forall" {
 			t, err := ev.evalBool(cj)
 			if err != nil {
